@@ -25,7 +25,7 @@ func TestMain(m *testing.M) { vh.Main(m) }
 type verdict struct{ sig, msg string }
 
 type hop struct {
-	Op    string `json:"op"` // burst, drop, kill, stop, start, relayout, addmaster, failover
+	Op    string `json:"op"` // burst, drop, kill, stop, start, relayout, addmaster, failover, blackdrop
 	Node  int    `json:"node,omitempty"`
 	N     int    `json:"n,omitempty"`
 	RST   bool   `json:"rst,omitempty"`
@@ -45,7 +45,7 @@ type healCase struct {
 }
 
 type healInfo struct {
-	faultThenTraffic, layoutMoved int
+	faultThenTraffic, layoutMoved, dropsDuringPendingConnect int
 }
 
 const (
@@ -212,6 +212,75 @@ func checkHeal(c healCase) (inf healInfo, v *verdict) {
 			}
 			inf.faultThenTraffic++
 			continue
+		case "blackdrop":
+			// a connect to one master hangs (the address is black-holed) while the connections to the other masters are
+			// lost at once; afterwards the black-holed node comes back
+			if len(h.down) > 0 || len(w.Masters()) < 2 {
+				continue
+			}
+			bkey := w.KeyFor(node, "bh:")
+			if bkey == "" {
+				continue
+			}
+			if err := w.Nodes[node].Blackhole(); err != nil {
+				continue
+			}
+			h.down[node] = true
+			faultSeen = true
+			cl2, err := sim.Dial(px.Addr)
+			if err != nil {
+				return inf, &verdict{"client-dial", err.Error()}
+			}
+			pending := make(chan error, 1)
+			t0 := time.Now()
+			go func() {
+				_, err := cl2.Do(replyTimeout, "GET", bkey) // dials the black hole: pending for the connect time-out
+				pending <- err
+			}()
+			time.Sleep(time.Duration(o.After) * time.Millisecond)
+			before := map[int]int{}
+			dropped := map[int]int{}
+			for _, m := range w.Masters() {
+				if m != node {
+					before[m] = w.AcceptsOf(m)
+				}
+			}
+			var dwg sync.WaitGroup
+			var dmu sync.Mutex
+			for _, m := range w.Masters() {
+				if m == node {
+					continue
+				}
+				dwg.Add(1)
+				go func(m int) {
+					defer dwg.Done()
+					d := w.Nodes[m].DropConns(o.RST)
+					dmu.Lock()
+					dropped[m] = d
+					dmu.Unlock()
+				}(m)
+			}
+			dwg.Wait()
+			perr := <-pending
+			cl2.Close()
+			if time.Since(t0) >= connectTimeout*8/10 {
+				inf.dropsDuringPendingConnect++
+			}
+			if perr != nil {
+				return inf, &verdict{"reply-missing", fmt.Sprintf("%s: the request for the black-holed node %d: %v", where, node, perr)}
+			}
+			time.Sleep(allowance)
+			if v := h.probeAll(where); v != nil {
+				return inf, v
+			}
+			for m, d := range dropped {
+				if d > 0 && w.KeyFor(m, "probe:") != "" && w.AcceptsOf(m) <= before[m] {
+					return inf, &verdict{"no-new-connection", fmt.Sprintf("%s: node %d served a request without accepting a new connection", where, m)}
+				}
+			}
+			w.Nodes[node].Start()
+			delete(h.down, node)
+			time.Sleep(allowance)
 		case "kill":
 			w.Nodes[node].KillAfter(o.After, o.Mid, o.RST)
 			if v := h.burst(o.N + o.After*len(w.Masters())); v != nil {
@@ -469,7 +538,9 @@ func genHeal(t *rapid.T) healCase {
 	n := rapid.IntRange(1, 8).Draw(t, "n")
 	for i := 0; i < n; i++ {
 		o := hop{Node: rapid.IntRange(0, 5).Draw(t, "node")}
-		switch x := rapid.IntRange(0, 14).Draw(t, "op"); {
+		switch x := rapid.IntRange(0, 16).Draw(t, "op"); {
+		case x >= 15:
+			o.Op, o.After, o.RST = "blackdrop", rapid.IntRange(0, 60).Draw(t, "bafter"), rapid.Bool().Draw(t, "brst")
 		case x == 14:
 			o.Op = "failover"
 		case x <= 2:
@@ -512,6 +583,9 @@ func TestHeal(t *testing.T) {
 		}
 		if inf.layoutMoved > 0 {
 			vh.Rec().Class("heal", "layout_change_moved_slots")
+		}
+		if inf.dropsDuringPendingConnect > 0 {
+			vh.Rec().Class("heal", "connections_lost_while_a_connect_was_pending")
 		}
 		if len(c.StartDown) > 0 {
 			vh.Rec().Class("heal", "node_down_at_proxy_start")
